@@ -210,6 +210,12 @@ class Lib:
         from . import bridge  # noqa: F401
         from proof_generation.tautology import Tautology
         self.t = Tautology()
+        self.base = len(self.t._axioms)
+
+    def reset(self):
+        """forget the premise axioms of earlier instances (the module of one instance declares only its own premises;
+        otherwise the accumulated axioms overflow the 256 memory slots -- an artefact of the harness, not of the library)"""
+        del self.t._axioms[self.base:]
 
     def premise(self, pat):
         self.t.add_axiom(pat)
@@ -322,6 +328,7 @@ def check_instance(lib, name, f, spec, binding, env, stride_hit, out):
     """one argument tuple: env maps letters to patterns"""
     from . import bridge
     pre, concl = spec
+    lib.reset()
     kwargs = {}
     for pn, l in binding['pats'].items():
         kwargs[pn] = env[l]
@@ -455,6 +462,7 @@ def nested_chunk(args):
         th = check_instance(lib, pname, f, spec, b, env, False, tmp)
         if th is None:
             continue
+        keep = list(lib.t._axioms[lib.base:])
         conc = bridge.expand(th.conc)
         for cname, (g, cspec, cb) in specs.items():
             pre, concl = cspec
@@ -471,6 +479,9 @@ def nested_chunk(args):
                     else:
                         cenv[l] = base[(i + 1) % len(base)]
                 kwargs = {}
+                lib.reset()
+                for a in keep:
+                    lib.t.add_axiom(a)
                 for pn, l in cb['pats'].items():
                     kwargs[pn] = cenv[l]
                 for tn2, k2 in cb['thunks'].items():
